@@ -11,6 +11,7 @@ CONSTANTS
   Profile = "free"
   AliasDefaults = FALSE
   ShutdownFirst = FALSE
+  CutDeletes = FALSE
 INVARIANT TypeOK
 INVARIANT Ref_Table
 INVARIANT Ref_Reply
